@@ -70,7 +70,7 @@ from ._state_token import (
     _deserialize_state_bytes,
     _mint_call_token,
     _mint_cursor_token,
-    _open_call_token,
+    _open_call_token_dated,
     _open_cursor_token,
     _resolve_state_cls,
     _ResolvedCall,
@@ -304,6 +304,7 @@ def _run_stream_init_sync(
             # serialized or sealed.  Continuations echo the token back and the
             # server resolves it from cache; see ``_state_token`` for why that
             # lookup is safe.
+            minted_at = time.time()
             call_token, call_id, call_state_bytes = _mint_call_token(
                 result.call_state,
                 result.output_schema,
@@ -311,6 +312,7 @@ def _run_stream_init_sync(
                 app._token_key,
                 auth,
                 stream_id,
+                now=int(minted_at),
             )
             # Warm the cache with the objects we already hold, so this stream's
             # first continuation does not have to open the token it was just
@@ -319,7 +321,7 @@ def _run_stream_init_sync(
                 call_id,
                 auth,
                 _ResolvedCall(result.call_state, result.output_schema, result.input_schema, stream_id),
-                time.time(),
+                _call_cache_birth(app, int(minted_at), minted_at),
             )
 
             if result.input_schema == _EMPTY_SCHEMA:
@@ -1173,8 +1175,15 @@ def _unpack_and_recover_state(
     now = time.time()
     resolved = app._call_state_cache.get(call_id, auth, now)
     if resolved is None:
-        resolved = _resolve_call_from_token(app, call_token, call_id, state_info, auth)
-        app._call_state_cache.put(call_id, auth, resolved, now)
+        resolved, created_at = _resolve_call_from_token(app, call_token, call_id, state_info, auth)
+        app._call_state_cache.put(call_id, auth, resolved, _call_cache_birth(app, created_at, now))
+    elif resolved.call_state is not None:
+        # A hit skips opening the call token, not what the miss path checks
+        # about its contents: the cache must answer exactly as a cold worker
+        # would.
+        call_state_type = type(resolved.call_state).__name__
+        if call_state_type not in _declared_call_state_types(state_info):
+            raise _undeclared_call_state_type(call_state_type)
 
     if resolved.stream_id:
         _current_stream_id.set(resolved.stream_id)
@@ -1191,6 +1200,30 @@ def _unpack_and_recover_state(
         ) from exc
 
     return state_obj, resolved, call_id, state_bytes
+
+
+def _call_cache_birth(app: _HttpRpcApp, created_at: int, now: float) -> float:
+    """Return the time a call-state cache entry ages from.
+
+    The cache stands in for the call token, so an entry must stop vouching
+    for a call no later than the token itself would be refused: when tokens
+    expire, the entry ages from the token's ``created_at`` rather than from
+    whichever request happened to (re)populate it.  Otherwise a continuation
+    that lands on a warm worker is served long after a cold worker rejects
+    the same request with "Call token expired".
+
+    With ``token_ttl <= 0`` tokens never expire and the entry lifetime is
+    only housekeeping, so it runs from ``now``.
+    """
+    return float(created_at) if app._token_ttl > 0 else now
+
+
+def _undeclared_call_state_type(call_state_type: str) -> _RpcHttpError:
+    """Build the 400 for a call whose call-state type the method does not declare."""
+    return _RpcHttpError(
+        RuntimeError(f"Call token declares call-state type {call_state_type!r}, which this method does not"),
+        status_code=HTTPStatus.BAD_REQUEST,
+    )
 
 
 def _declared_call_state_types(state_info: _StateInfo) -> dict[str, type[ArrowSerializableDataclass]]:
@@ -1214,7 +1247,7 @@ def _resolve_call_from_token(
     expected_call_id: bytes,
     state_info: _StateInfo,
     auth: AuthContext | None,
-) -> _ResolvedCall:
+) -> tuple[_ResolvedCall, int]:
     """Open a client-supplied call token — the cache-miss path.
 
     Args:
@@ -1226,7 +1259,7 @@ def _resolve_call_from_token(
         auth: Authenticated identity for the current request.
 
     Returns:
-        The parsed :class:`_ResolvedCall`.
+        The parsed :class:`_ResolvedCall` and the token's ``created_at``.
 
     Raises:
         _RpcHttpError: If the token is absent, fails to open, names a
@@ -1247,7 +1280,8 @@ def _resolve_call_from_token(
         input_schema_bytes,
         token_call_id,
         stream_id,
-    ) = _open_call_token(call_token, app._token_key, _compute_call_aad(auth), app._token_ttl)
+        created_at,
+    ) = _open_call_token_dated(call_token, app._token_key, _compute_call_aad(auth), app._token_ttl)
     # Constant-time compare: the ids are both server-minted and already
     # authenticated, so this is belt-and-braces against a client pairing two
     # of its own tokens from different streams.
@@ -1277,10 +1311,7 @@ def _resolve_call_from_token(
     if call_state_bytes:
         call_state_cls = _declared_call_state_types(state_info).get(call_state_type)
         if call_state_cls is None:
-            raise _RpcHttpError(
-                RuntimeError(f"Call token declares call-state type {call_state_type!r}, which this method does not"),
-                status_code=HTTPStatus.BAD_REQUEST,
-            )
+            raise _undeclared_call_state_type(call_state_type)
         try:
             call_state = call_state_cls.deserialize_from_bytes(call_state_bytes, app._server.ipc_validation)
         except Exception as exc:
@@ -1289,4 +1320,4 @@ def _resolve_call_from_token(
                 status_code=HTTPStatus.BAD_REQUEST,
             ) from exc
 
-    return _ResolvedCall(call_state, output_schema, input_schema, stream_id)
+    return _ResolvedCall(call_state, output_schema, input_schema, stream_id), created_at
